@@ -157,6 +157,7 @@ def case_strategy():
                 "mlstr": draw(st.sampled_from([None, None, None, "", "\\n    indented"])),
                 "private": host == "method" and draw(st.integers(0, 3)) == 0,
                 "future": draw(st.integers(0, 5)) == 0,
+                "late_cell": draw(st.integers(0, 3)) == 0,
                 # how the body spells the recursion: the special `recurse`, the function's own name (a global, or a
                 # closure cell when the functions are built in a factory), or both
                 "recname": draw(st.sampled_from(["recurse", "recurse", "self", "both"])) if host == "func" else "recurse"}
@@ -274,6 +275,8 @@ def render(spec, real):
         ret += ", d, kd, lam(1), klam(2)"
     if spec["closure"]:
         ret += ", ACV, zCV"
+        if spec.get("late_cell"):
+            ret += ", LATE"
     body.append(f"{ind}return ({ret},)")
     emit_def([], sig, body)
     if spec["hi"]:
@@ -300,7 +303,11 @@ def render(spec, real):
         src = "from __future__ import annotations\n" + src
     if spec["closure"]:
         # wrap everything in a factory so that CV is a closure cell
-        src = "def make(ACV, zCV):\n" + "".join("    " + l + "\n" for l in src.splitlines()) + (
+        late = ""
+        if spec.get("late_cell"):
+            # the factory calls the function before a variable one of the methods closes over is assigned
+            late = ("    _early = Host().f(3)\n" if method else "    _early = f(3)\n") + "    LATE = ('late', _early)\n"
+        src = "def make(ACV, zCV):\n" + "".join("    " + l + "\n" for l in src.splitlines()) + late + (
             "    return Host\n" if method else "    return f\n")
         if spec.get("future"):
             src = "from __future__ import annotations\n" + src
